@@ -163,12 +163,28 @@ func (w *World) BuildFuncUnit(con *Contract) (u *Unit) {
 			}
 		}
 	}
+	for _, name := range con.NoEscape {
+		for _, p := range fn.Params {
+			if p.Name() != name {
+				continue
+			}
+			switch p.Type().Underlying().(type) {
+			case *types.Slice, *types.Pointer:
+				u.noEscapeObjs = append(u.noEscapeObjs, f.val(p)[0])
+				u.Trusted["no reference to the backing array of parameter "+name+" of "+con.Target+" exists in memory when it is called (caller's buffer)"] = true
+			}
+		}
+	}
 	u.addCover("requires", tb.True(), f.pos(fn.Pos()))
 	if !con.Flags["noframe"] {
 		f.frame = &frameSpec{regions: stA.regions, active: true}
 	}
 	if con.Flags["maypanic"] {
 		u.mayPanic = true
+	}
+	if con.Flags["explicitpanic"] {
+		u.explicitPanicOK = true
+		u.Trusted["explicit panic(...) statements in "+con.Target+" (internal consistency checks) are not proved unreachable"] = true
 	}
 	f.cur = BState{reach: tb.True(), mem: entryMem}
 	res, out := f.run(f.cur)
@@ -190,6 +206,11 @@ func (w *World) BuildFuncUnit(con *Contract) (u *Unit) {
 	stB := f.evalStub(con, valsB, entryMem, &out.mem, tb.BVU(32, freshBase), nil)
 	for i, e := range stB.ensures {
 		u.addObl("post", fmt.Sprintf("ensures%d", i+1), out.reach, e, f.pos(stB.ensPos[i]), fmt.Sprintf("postcondition %d of %s", i+1, con.Key()))
+		// a proved postcondition may be used for the ones written after it (a contract can state
+		// the pieces of a large predicate first and the predicate last)
+		if !e.hasBV {
+			u.addFact(tb.Implies(out.reach, e))
+		}
 	}
 	return
 }
